@@ -47,6 +47,14 @@ type PeerPlan struct {
 	DelayMs int         `json:"delay_ms,omitempty"` // before answering
 	IP      *string     `json:"ip"`
 	Gate    bool        `json:"gate,omitempty"`  // hold the client between Pop and the token write and close this peer meanwhile
+	// Park (with Gate): the client's data channel OnClose callback is held at the
+	// peer.onclose gate until after the failed write, so that the write fails
+	// while WebRTCPeer.Closed() is still false (the peer is not yet MARKED closed).
+	Park bool `json:"park,omitempty"`
+	// PoolKill: the proxy dies PoolKillMs after its data channel opened, i.e.
+	// normally while the peer still waits in the client's pool (a dead reserve).
+	PoolKill   bool `json:"pool_kill,omitempty"`
+	PoolKillMs int  `json:"pool_kill_ms,omitempty"`
 	Fault   *ProxyFault `json:"fault,omitempty"` // proxy dies / freezes
 	Link    *Fault      `json:"link,omitempty"`  // forwarder fault between proxy and server
 }
@@ -93,6 +101,13 @@ type miniProxy struct {
 	dead   int32
 	ended  int32
 	once   sync.Once
+	// peer.onclose gate
+	parkArmed  int32
+	parked     chan struct{} // closed when the client's OnClose callback has arrived at the gate
+	unpark     chan struct{} // closed to let it go on
+	parkOnce   sync.Once
+	unparkOnce sync.Once
+	popped     int32
 }
 
 var newClientMu sync.Mutex
@@ -102,6 +117,25 @@ var sysRuns sync.Map // data channel label -> *sysRun (for the client-side hook)
 // SysClientHook receives the hook calls of client/lib (dial.popped, dial.up).
 func (r *Rig) SysClientHook(point string, args ...interface{}) {
 	switch point {
+	case "peer.onclose":
+		// gate: the client's OnClose callback, before the peer is marked closed
+		label, _ := args[0].(string)
+		v, ok := sysRuns.Load(label)
+		if !ok {
+			return
+		}
+		run := v.(*sysRun)
+		run.mu.Lock()
+		p := run.proxies[label]
+		run.mu.Unlock()
+		if p == nil || atomic.LoadInt32(&p.parkArmed) == 0 {
+			return
+		}
+		p.parkOnce.Do(func() { close(p.parked) })
+		select {
+		case <-p.unpark:
+		case <-time.After(5 * time.Second):
+		}
 	case "dial.popped", "dial.up":
 		label, _ := args[0].(string)
 		var run *sysRun
@@ -156,15 +190,34 @@ func (run *sysRun) popped(p *miniProxy) {
 		ipv = *p.plan.IP
 	}
 	run.rec.Struct("car.open", "k", p.k, "s", 0, "pres", "S0", "hello", "full", "ip", ipv, "label", fmt.Sprintf("o%d", p.idx), "role", "main")
+	atomic.StoreInt32(&p.popped, 1)
 	if p.plan.Gate {
 		// D15 schedule: the peer dies between Pop and the first write
-		run.rec.Struct("car.fault", "k", p.k, "kind", "cut", "dir", "up", "cls", "popped", "nth", 0, "upb", 0, "downb", 0)
+		cls := "popped"
+		if p.plan.Park {
+			cls = "popped-unmarked"
+			atomic.StoreInt32(&p.parkArmed, 1)
+		}
+		run.rec.Struct("car.fault", "k", p.k, "kind", "cut", "dir", "up", "cls", cls, "nth", 0, "upb", 0, "downb", 0)
 		run.sr.omu.Lock()
 		run.sr.lastFault = time.Now()
 		run.sr.omu.Unlock()
 		atomic.AddInt32(&run.sr.faults, 1)
 		p.kill(0)
-		time.Sleep(400 * time.Millisecond) // let the close reach the client's SCTP association
+		if p.plan.Park {
+			// wait until the client's data channel has left the open state: its
+			// OnClose callback is now held at the peer.onclose gate, so the peer
+			// is NOT yet marked closed when the write below fails
+			select {
+			case <-p.parked:
+				run.rec.Struct("sys.note", "k", p.k, "what", "close callback parked; releasing the write")
+			case <-time.After(4 * time.Second):
+				run.rec.Note("proxy %d: the close callback never arrived at the gate", p.k)
+			}
+			time.AfterFunc(600*time.Millisecond, func() { p.unparkOnce.Do(func() { close(p.unpark) }) })
+		} else {
+			time.Sleep(400 * time.Millisecond) // let the close reach the client and its callback mark the peer closed
+		}
 	}
 }
 
@@ -291,7 +344,7 @@ func (run *sysRun) answer(idx int, plan PeerPlan, offer *webrtc.SessionDescripti
 	if err != nil {
 		return "", err
 	}
-	p := &miniProxy{run: run, idx: idx, plan: plan, pc: pc}
+	p := &miniProxy{run: run, idx: idx, plan: plan, pc: pc, parked: make(chan struct{}), unpark: make(chan struct{})}
 	run.mu.Lock()
 	run.all = append(run.all, p)
 	run.mu.Unlock()
@@ -306,6 +359,19 @@ func (run *sysRun) answer(idx int, plan PeerPlan, offer *webrtc.SessionDescripti
 			run.proxies[p.label] = p
 			run.mu.Unlock()
 			sysRuns.Store(p.label, run)
+			if plan.PoolKill {
+				d := time.Duration(plan.PoolKillMs) * time.Millisecond
+				if d == 0 {
+					d = 150 * time.Millisecond
+				}
+				time.AfterFunc(d, func() {
+					if atomic.LoadInt32(&p.popped) == 0 && atomic.LoadInt32(&run.sr.ending) == 0 {
+						run.rec.Struct("sys.note", "k", p.k, "what", "reserve proxy dies in the pool")
+						atomic.AddInt32(&run.sr.faults, 1)
+						p.kill(0)
+					}
+				})
+			}
 		})
 	})
 	if err := pc.SetRemoteDescription(*offer); err != nil {
@@ -392,7 +458,7 @@ func (r *Rig) RunSys(sc *SysScenario, index int) *Result {
 	t0 := time.Now()
 	rec := NewRecorder()
 	plan := &SessionPlan{Up: sc.Up, Down: sc.Down}
-	sr := &scenarioRun{rig: r, sc: &Scenario{Name: sc.Name, Seed: sc.Seed}, rec: rec, oindex: map[string]int{}, stale: r.Stale}
+	sr := &scenarioRun{rig: r, sc: &Scenario{Name: sc.Name, Seed: sc.Seed}, rec: rec, oindex: map[string]int{}, stale: r.Stale, t0: t0, endCh: make(chan struct{})}
 	sr.ocond = sync.NewCond(&sr.omu)
 	sr.lastFault = t0
 	ses := &session{sc: sr, idx: 0, plan: plan}
@@ -401,7 +467,7 @@ func (r *Rig) RunSys(sc *SysScenario, index int) *Result {
 	run := &sysRun{rig: r, sc: sc, sr: sr, ses: ses, rec: rec, proxies: map[string]*miniProxy{}}
 	res := &Result{Name: sc.Name}
 	for _, p := range sc.Peers {
-		if p.Fault != nil || p.Link != nil || p.Gate || (p.Answer != "" && p.Answer != "ok") {
+		if p.Fault != nil || p.Link != nil || p.Gate || p.PoolKill || (p.Answer != "" && p.Answer != "ok") {
 			res.Planned++
 		}
 	}
@@ -482,6 +548,7 @@ func (r *Rig) RunSys(sc *SysScenario, index int) *Result {
 		if p.label != "" {
 			sysRuns.Delete(p.label)
 		}
+		p.unparkOnce.Do(func() { close(p.unpark) })
 		p.kill(0)
 	}
 	sr.omu.Lock()
